@@ -1,6 +1,6 @@
 (* Model.v — the executable entry points of the implementation model: the fixed user-function
    library (implemented a second time in Go by the runner) and one-call wrappers. *)
-From JP Require Export Json Tree Eval Peg Grammar Text Actions WF Spec AccDefs CallDefs ErrSpec.
+From JP Require Export Json Tree Eval Peg Grammar GrammarPinned Text Actions WF Spec AccDefs CallDefs ErrSpec.
 Open Scope string_scope.
 
 (* ---------- the user-function library of the harness ---------- *)
@@ -14,6 +14,7 @@ Definition lib_ffun (name : string) (v : value) : option value :=
   else if String.eqb name "fail" then None
   else if String.eqb name "fstr" then match v with VStr _ => None | _ => Some v end
   else if String.eqb name "id" then Some v
+  else if String.eqb name "k3" then Some (VOpaque "int" 1 true)      (* returns the Go value int(3): not a float64 *)
   else None.
 
 Fixpoint max_num (l : list value) (best : option num) : option num :=
@@ -32,6 +33,7 @@ Definition lib_afun (name : string) (l : list value) : option value :=
   else if String.eqb name "arr" then Some (VArr l)
   else if String.eqb name "afail" then None
   else if String.eqb name "amax" then option_map VNum (max_num l None)
+  else if String.eqb name "c5" then Some (VOpaque "int64" 3 true)   (* returns the Go value int64(5) *)
   else None.
 
 (* the state a later call of a parsed function starts from: the package-level lists persist,
@@ -42,6 +44,11 @@ Definition next_call_state (st : estate) : estate :=
 Definition parse_path (cfg : config) (parse_float : string -> option num) (regex_ok : string -> bool)
                       (path : list N) : presult :=
   parse_with cfg parse_float regex_ok jsonpath_grammar path.
+
+(* the same parser run on the grammar of the pinned tree (GrammarPinned.v) *)
+Definition parse_path_pinned (cfg : config) (parse_float : string -> option num) (regex_ok : string -> bool)
+                             (path : list N) : presult :=
+  parse_with cfg parse_float regex_ok pinned_grammar path.
 
 Definition eval_doc (regex_match : string -> string -> bool) (t : node) (doc : value) (st : estate)
   : outcome * estate :=
